@@ -155,7 +155,7 @@ def outcome_equal(a, b):
     return a == b
 
 
-def compare_rows(A, B, domain=(), positive=("N",), int_atoms=None):
+def compare_rows(A, B, domain=(), positive=("N",), int_atoms=None, norm=None):
     """A, B: [(conds, outcome)].  None if for every overlapping pair the outcomes agree;
     otherwise a dict describing the first disagreement (with the overlapping region's constraints)."""
     positive = set(positive)
@@ -163,6 +163,10 @@ def compare_rows(A, B, domain=(), positive=("N",), int_atoms=None):
         for cb, ob in B:
             if outcome_equal(oa, ob):
                 continue
+            if norm is not None:
+                joint = list(ca) + list(cb)
+                if outcome_equal(norm(joint, oa), norm(joint, ob)):
+                    continue
             w = feasible_with(list(ca) + list(cb), domain, positive, int_atoms=int_atoms)
             if w is not None:
                 from .sym import fmt_conds
